@@ -73,7 +73,7 @@ NAMED = ["Class1", "Color", "TypeID", "Struct1", "ns1::Inner", "std::string", "s
 PTRS = ["", "*", "&", "**", "*&", "* const", "* const *", "** const", "* const &", "* volatile", "***", "* const * const"]
 CVS = ["", "const ", "volatile ", "const volatile ", "volatile const "]
 POSTCV = ["", " const", " volatile"]
-ARRS = ["", "[20]", "[N]", "[3][4]", "[N][2]"]
+ARRS = ["", "[20]", "[N]", "[3][4]", "[N][2]", "[64/(4*2)]", "[N*(2+1)]", "[(N+1)*2]", "[60/(N/2)]", "[2*(N-3)]", "[N-(3-1)]", "[40/(2*2)][N]"]
 ATTRS = ["", " +intent(in)", " +intent(out)", " +rank(1)", " +dimension(n)", " +value", " +len(30)", " +hidden",
          " +intent(inout)+rank(2)", " +rank=1", " +name(other)", " +deref(raw)"]
 
